@@ -3,6 +3,9 @@ Line-protocol driver for the Hodrick-Prescott / l1 trend-filter model (property 
 
 requests (words separated by blanks; numbers are `num/den` or integers, a missing value is `nan`):
   hpf   <req>                 -> `ok <start> <len> <nv> <trend, variant-major> <gap, variant-major>` | `err:singular`
+  hpfq  lam <spanreq> dstart dlen nv values.. lev .. chg ..   -> as `hpf`, or `err:bad` (empty selection, zero step);
+        <spanreq> = dots | range a|- b|- step | list k p1..pk  (the span in the form the caller gave it)
+  obj   <req>                 -> `before <F> after <F> answered k`: self._F of the filter object before / after the variant loop
   setup <req>                 -> `lo hi n slo shi lw=[..] cw=[..] ld=[..] cd=[..]`
   sys   n lam kl lw.. kc cw.. mask(n words 0/1)   -> the system matrix as `QMat.toText`
   cert  <req> tau <n*nv values, variant-major>    -> `ok <stationarity residual> <constraint residual>` per variant | `err:singular`
@@ -10,7 +13,7 @@ requests (words separated by blanks; numbers are `num/den` or integers, a missin
   dmat  order n                                   -> the difference matrix of `_ell_one.py` as `QMat.toText`
 <req> = lam slo|- shi|- dstart dlen nv <dlen*nv values, variant-major> lev (-| start len values..) chg (-| start len values..)
 -/
-import IrisVerif.Model.HP
+import IrisVerif.Model.HPSpan
 import IrisVerif.Driver.Util
 
 open IrisVerif IrisVerif.HP IrisVerif.Driver
@@ -84,6 +87,26 @@ def request : P Request := do
     | _, _ => none
   pure ⟨lam, dstart, dlen, cols, level, change, span⟩
 
+/-- `dots` | `range a|- b|- step` | `list k p1 … pk` -/
+def spanReq : P SpanReq := do
+  match ← word with
+  | "dots" => pure .dots
+  | "range" => do let a ← optInt; let b ← optInt; let st ← int; pure (.range a b st)
+  | "list" => do let k ← nat; let l ← many k int; pure (.periods l)
+  | _ => failure
+
+/-- `<reqq>` = lam <spanreq> dstart dlen nv values… lev … chg … -/
+def requestQ : P (Request × SpanReq) := do
+  let lam ← rat
+  let sp ← spanReq
+  let dstart ← int
+  let dlen ← nat
+  let nv ← nat
+  let cols ← many nv (do let v ← many dlen orat; pure v.toArray)
+  let level ← ser "lev"
+  let change ← ser "chg"
+  pure (⟨lam, dstart, dlen, cols, level, change, none⟩, sp)
+
 def showO : Option Rat → String
   | some q => QMat.showRat q
   | none => "nan"
@@ -99,6 +122,28 @@ def runHpf (r : Request) : String :=
     let t := res.trend.flatMap (fun a => a.toList.map QMat.showRat)
     let g := res.gap.flatMap (fun a => a.toList.map showO)
     " ".intercalate (["ok", toString res.start, toString len, toString res.trend.length] ++ t ++ g)
+
+def showResult : Option Result → String
+  | none => "err:singular"
+  | some res =>
+    let len := (res.trend.head?.map Array.size).getD 0
+    let t := res.trend.flatMap (fun a => a.toList.map QMat.showRat)
+    let g := res.gap.flatMap (fun a => a.toList.map showO)
+    " ".intercalate (["ok", toString res.start, toString len, toString res.trend.length] ++ t ++ g)
+
+/-- `_data_hpf` with the span in the form it was given; the filter object is run over the variants as the code does -/
+def runHpfQ (r : Request) (sp : SpanReq) : String :=
+  match dataHpfReq id id r sp with
+  | none => "err:bad"
+  | some res => showResult res
+
+/-- state of the filter object: `self._F` after `__init__` and after the variant loop (must be the same matrix) -/
+def runObj (r : Request) : String :=
+  let s := setup r
+  let o := HPObject.init s.n r.lam s.lw s.cw
+  let cols := r.dcols.map (fun col => (Ser.mk r.dstart col).fromUntil s.lo s.hi)
+  let (o', outs) := o.run id id s.ld s.cd cols
+  "before " ++ o.F.toText ++ " after " ++ o'.F.toText ++ " answered " ++ toString (outs.filter Option.isSome).length
 
 def runSetup (r : Request) : String :=
   let s := setup r
@@ -117,6 +162,14 @@ def step (line : String) : String :=
   | "hpf" :: rest =>
     match request.run rest with
     | some (r, []) => runHpf r
+    | _ => "bad-op"
+  | "hpfq" :: rest =>
+    match requestQ.run rest with
+    | some ((r, sp), []) => runHpfQ r sp
+    | _ => "bad-op"
+  | "obj" :: rest =>
+    match request.run rest with
+    | some (r, []) => runObj r
     | _ => "bad-op"
   | "setup" :: rest =>
     match request.run rest with
